@@ -87,6 +87,7 @@ type G struct {
 	waitHow  int
 	granted  bool
 	children int
+	held     int // sync mutexes held: never parked while > 0
 	yields   uint64
 	site     int
 	actor    bool
@@ -143,6 +144,18 @@ func (s *Sched) Install() {
 	whispertool.VerifYield = s.Yield
 	whispertool.VerifFlock = s.Flock
 	whispertool.VerifSpawn = s.Spawn
+	whispertool.VerifHeld = s.Held
+}
+
+// Held is the hook called after a mutex was acquired (+1) and before it is
+// released (-1) by instrumented code.
+func (s *Sched) Held(delta int) {
+	id := getg()
+	s.mu.Lock()
+	if g := s.gs[id]; g != nil {
+		g.held += delta
+	}
+	s.mu.Unlock()
 }
 
 // Uninstall removes the hooks.
@@ -150,6 +163,7 @@ func Uninstall() {
 	whispertool.VerifYield = nil
 	whispertool.VerifFlock = nil
 	whispertool.VerifSpawn = nil
+	whispertool.VerifHeld = nil
 }
 
 func (s *Sched) kickSched() {
@@ -322,6 +336,11 @@ func (s *Sched) Yield(site int) {
 	}
 
 	s.mu.Lock()
+	if g.held > 0 {
+		// inside a critical section: go on without parking
+		s.mu.Unlock()
+		return
+	}
 	if s.cur == g && g.state == gRunning && !forced {
 		preempt := false
 		if s.replaying {
